@@ -26,7 +26,7 @@ type Solver struct {
 	bin     string
 }
 
-func NewSolver(bin string, timeoutMs int) *Solver {
+func NewSolver(bin string, timeoutMs int, logic string) *Solver {
 	var cmd *exec.Cmd
 	switch {
 	case strings.HasPrefix(bin, "cvc5"):
@@ -45,6 +45,11 @@ func NewSolver(bin string, timeoutMs int) *Solver {
 		s.send("(set-logic ALL)\n")
 	}
 	s.send("(set-option :global-declarations true)\n")
+	if logic != "" && !strings.HasPrefix(bin, "cvc5") {
+		// QF_BV selects z3's SAT-based incremental bit-vector solver, far faster under push/pop than
+		// the default core; harnesses whose terms need floating point run without a logic
+		s.send("(set-logic " + logic + ")\n")
+	}
 	return s
 }
 
